@@ -39,6 +39,11 @@ func evalC03(op string, args []string) string {
 		if err != nil {
 			return "err"
 		}
+		// encoding the same packet again must give the same datagram
+		w2, err2 := p.Encode()
+		if err2 != nil || !bytes.Equal(w, w2) {
+			return "ok " + hx(w) + " second-encode-differs"
+		}
 		return "ok " + hx(w)
 	case "authresp":
 		return boolStr(radius.IsAuthenticResponse(unhx(args[0]), unhx(args[1]), unhx(args[2])))
